@@ -384,6 +384,8 @@ package parse
 //@   inline
 //@ func parse.NewBodyNode
 //@   inline
+//@ func parse.(*BodyNode).All
+//@   inline
 //@ func parse.NewTextNode
 //@   inline
 //@ func parse.NewCommentNode
@@ -569,6 +571,9 @@ package parse
 //@ func parse.(*Tree).parse
 // C20: text, print and comment nodes carry the position of their first token (the text run, the opening delimiter)
 //@   asserts@tokenText anchor: nposIs(r0, tok.Pos)
+// C03: a text node holds exactly the text token's value (which lexData proves to be the source span up to the next
+// opening delimiter)
+//@   asserts@tokenText data: istype(r0, "*TextNode") && unbox(r0, "*TextNode").Data == tok.value
 //@   asserts@tokenPrintOpen anchor: err == nil ==> nposIs(r0, tok.Pos)
 // C20 (rejection): a print statement that parses without error ends with its closing delimiter
 //@   asserts@tokenPrintOpen closed: err == nil ==> tokAt(t, tcur(t) - 1).tokenType == tokenPrintClose
@@ -786,6 +791,14 @@ package parse
 //@   loop 1 decreases left(t)
 
 //@ func parse.parseVerbatim
+// C03: every token read between the tag's closing delimiter and the endverbatim tag is appended to the literal body,
+// in the order read: one by one in the default arm, and - for a tag that is not endverbatim - everything read since
+// its opening delimiter (delimiter, blanks, name)
+//@   at "body.WriteString(tok.value)" lit: tok == tokAt(t, tcur(t) - 1)
+//@   at "t.expect(tokenName)" mark: mark == tcur(t) - 1 && tokAt(t, mark).tokenType == tokenTagOpen
+//@   at "body.WriteString(rt.value)" each: mark <= rangeindex + 1 + mark && rt == t.read[mark + rangeindex + 1]
+//@   asserts text: err == nil ==> istype(r0, "*TextNode") && unbox(r0, "*TextNode").Data == bufstr(addrof(body))
+//@   loop 2 invariant tinv(t) && tcur(t) > old(tcur(t)) && rangeindex >= -1
 // C20 (rejection): a tag that parses without error has been closed: the last token consumed is its (end tag's) TAG_CLOSE
 //@   ensures closed: err == nil ==> tokAt(t, tcur(t) - 1).tokenType == tokenTagClose
 //@   ensures anchor: err == nil ==> nposIs(r0, start)
